@@ -63,14 +63,14 @@ def specs():
                                                        ('@{symbol_type}((void*)r1) == a1', 'a symbol reports the type it was requested with')])
     S['label'] = two('label', 'FAC', 'J', 'label', [('a0 != ID_DEFAULT || (void*)r1 == (void*)&g__ZN3ipr4impl12_GLOBAL__N_111default_cstE', 'the label `default` is the default constant, not a look-alike')], order=False)
     S['this'] = two('this', 'FAC', 'T', '`this`', [('@{symbol_type}((void*)r1) == a0', '`this` has the type it was requested with')], order=False)
-    S['symbol_then_label'] = dict(pre='  name_t* a0 = NM[pick(NPOOL)]; type_t* a1 = TY[pick(NPOOL)]; ident_t* b0 = ID[pick(NPOOL)];\n', call1='@{G_symbol}(FAC, a0, a1)', call2='@{G_label}(FAC, b0)',
+    S['symbol_then_label'] = dict(pre='  ident_t* b0 = ID[pick(NPOOL)]; name_t* a0 = nondet_bool() ? (name_t*)b0 : (name_t*)ID[pick(NPOOL)];      /* often the very identifier the label will be asked for */\n  type_t* a1 = TY[pick(NPOOL)];\n', call1='@{G_symbol}(FAC, a0, a1)', call2='@{G_label}(FAC, b0)',
         same='0', checks=[], post=[('@{symbol_type}((void*)r1) == a1', 'a symbol obtained earlier keeps the type it was requested with when a label is requested afterwards'),
                                    ('(void*)@{vcall:unary_name_operand}(&r1->__b0.__b1) == (void*)a0', 'a symbol obtained earlier keeps its name when a label is requested afterwards')],
         claim='a label is never the node of a symbol of another type requested earlier (symbols, labels and `this` share one table)', what='symbol, then label')
     S['symbol_then_this'] = dict(pre='  name_t* a0 = NM[pick(NPOOL)]; type_t* a1 = TY[pick(NPOOL)]; type_t* b0 = TY[pick(NPOOL)];\n', call1='@{G_symbol}(FAC, a0, a1)', call2='@{G_this}(FAC, b0)',
         same='0', checks=[], post=[('@{symbol_type}((void*)r1) == a1', 'a symbol obtained earlier keeps its type when `this` is requested afterwards')],
         claim='`this` is never the node of an unrelated symbol requested earlier', what='symbol, then this')
-    S['label_then_symbol'] = dict(pre='  ident_t* a0 = ID[pick(NPOOL)]; name_t* b0 = NM[pick(NPOOL)]; type_t* b1 = TY[pick(NPOOL)];\n', call1='@{G_label}(FAC, a0)', call2='@{G_symbol}(FAC, b0, b1)',
+    S['label_then_symbol'] = dict(pre='  ident_t* a0 = ID[pick(NPOOL)]; name_t* b0 = nondet_bool() ? (name_t*)a0 : (name_t*)ID[pick(NPOOL)]; type_t* b1 = TY[pick(NPOOL)];\n', call1='@{G_label}(FAC, a0)', call2='@{G_symbol}(FAC, b0, b1)',
         same='0', checks=[], post=[('@{symbol_type}((void*)r2) == b1', 'a symbol requested after a label has the type it was requested with')],
         claim='a symbol of a foreign type is never the node of a label requested earlier', what='label, then symbol')
     W = '  static unsigned char buf[1]; buf[0] = nondet_bool() ? 97 : 98; sv_t w; w.f__M_len = 1; w.f__M_str = buf; unsigned char first = buf[0];\n'
